@@ -220,16 +220,57 @@ def run(check, an: Analysis):
                    'for child in children)] (%d specialisations on paths)' % n_pick)
     getitem = an.callee(META, '__getitem__')
     rets = {}
+    me_n, item_n = [a.arg for a in getitem.fn.node.args.args[:2]]
+    ok, bad = True, None
     for path in an.paths(getitem):
-        if path.kind == 'return':
-            rets[ast.unparse(path.outcome[1])] = path
-    ok = set(rets) == {getitem.fn.node.args.args[0].arg,
-                       '%s._get_specialisation(%s)' % (
-                           getitem.fn.node.args.args[0].arg,
-                           getitem.fn.node.args.args[1].arg)}
-    check.instance('N', '__getitem__', ok, where_fn(getitem.fn),
-                   'Cls[...] is Cls itself; everything else goes through '
-                   '_get_specialisation: %s' % sorted(rets))
+        if path.kind != 'return':
+            continue
+        end = len(path.events)
+        value = path.outcome[1]
+        if isinstance(value, ast.Call) and not value.keywords and len(value.args) == 1 \
+                and not isinstance(value.args[0], ast.Starred):
+            # the call as written, with the argument that reaches it on this path (the
+            # callee may run in place on rule paths: not looked into here)
+            got = '%s(%s)' % (ast.unparse(value.func),
+                              rules.value_text(path, end, value.args[0]))
+        else:
+            got = rules.value_text(path, end, value) if value is not None else 'None'
+        rets[got] = path
+        # what the method itself tested about the item it was given (before it re-binds
+        # the name to the normalised tuple)
+        atoms = {}
+        for event in path.events:
+            if event.kind == 'store' and event.fn is getitem.fn and \
+                    event.data.get('path') == item_n:
+                break
+            if event.kind == 'test' and event.fn is getitem.fn and \
+                    event.get('key') is not None:
+                atoms.setdefault(event['key'], key_truth(event))
+        ellipsis = atoms.get(('is', *sorted(('...', item_n))))
+        if ellipsis is None:
+            ellipsis = atoms.get(('is', *sorted(('Ellipsis', item_n))))
+        is_tuple = None
+        for key in (('is', *sorted(('tuple', 'type(%s)' % item_n))),
+                    ('eq', 'type(%s)' % item_n, 'tuple')):
+            if atoms.get(key) is not None:
+                is_tuple = atoms[key]
+        if is_tuple is None and atoms.get(
+                ('truth', 'isinstance(%s, tuple)' % item_n)) is not None:
+            is_tuple = atoms[('truth', 'isinstance(%s, tuple)' % item_n)]
+        if ellipsis is True:
+            want = {me_n}
+        elif is_tuple is True:
+            want = {'%s._get_specialisation(%s)' % (me_n, item_n)}
+        elif is_tuple is False:
+            want = {'%s._get_specialisation((%s,))' % (me_n, item_n)}
+        else:
+            want = set()
+        if got not in want:
+            ok, bad = False, bad or path
+    check.instance('N', '__getitem__', ok and len(rets) >= 3, where_fn(getitem.fn),
+                   'Cls[...] (and only that) is Cls itself; a single type is specialised '
+                   'as the 1-tuple of it, a tuple as it is -- whatever it lists: %s'
+                   % sorted(rets), path=rules.path_lines(bad) if bad else None)
     # ---- X ------------------------------------------------------------------
     is_exception = 'ext:BaseException' in an.cls(CONCURRENT).mro
     overrides = an.p.find_method(META, '__subclasscheck__') is not None
